@@ -7,6 +7,7 @@ package c18
 
 import (
 	"context"
+	"crypto"
 	"encoding/json"
 	"path/filepath"
 	"strings"
@@ -196,5 +197,99 @@ func TestBounded(t *testing.T) {
 			}
 		}
 	}
-	fmt.Printf("BOUNDED name=c18-keys cases=%d failures=%d\n", cases, failures)
+	// all small key sets x requested ids: ordered sets of 0..3 distinct keys (three valid, one with a
+	// refused algorithm), each with kid absent, empty or one of a/b/c (non-empty kids distinct
+	// within a set), loaded with id "", a, b, c or an id no key has. Reference: no id => the set
+	// must hold exactly one key; an id => the key carrying it; the chosen key must pass Validate.
+	var pool []jwk.Key
+	for _, p := range pairs[:3] {
+		k, _ := p.pub.Key(0)
+		pool = append(pool, k)
+	}
+	bad, _ := keys[0].Clone()
+	bad.Set(jwk.AlgorithmKey, jwa.RS256)
+	pool = append(pool, bad)
+	kids := []string{"<absent>", "", "a", "b", "c"}
+	type member struct {
+		mat int
+		kid string
+	}
+	var sets [][]member
+	var build func(cur []member)
+	build = func(cur []member) {
+		sets = append(sets, append([]member(nil), cur...))
+		if len(cur) == 3 {
+			return
+		}
+	next:
+		for m := range pool {
+			for _, c := range cur {
+				if c.mat == m {
+					continue next
+				}
+			}
+			for _, kid := range kids {
+				dup := false
+				for _, c := range cur {
+					if kid == c.kid && kid != "<absent>" && kid != "" {
+						dup = true
+					}
+				}
+				if !dup {
+					build(append(cur, member{m, kid}))
+				}
+			}
+		}
+	}
+	build(nil)
+	setCases := 0
+	for _, ms := range sets {
+		var ks []jwk.Key
+		for _, m := range ms {
+			k, _ := pool[m.mat].Clone()
+			k.Remove(jwk.KeyIDKey)
+			if m.kid != "<absent>" {
+				k.Set(jwk.KeyIDKey, m.kid)
+			}
+			ks = append(ks, k)
+		}
+		path := writeSet("enum.json", ks...)
+		for _, id := range []string{"", "a", "b", "c", "zz"} {
+			cases++
+			setCases++
+			want := -1
+			if id == "" {
+				if len(ms) == 1 {
+					want = 0
+				}
+			} else {
+				for i, m := range ms {
+					if m.kid == id {
+						want = i
+						break
+					}
+				}
+			}
+			if want >= 0 && ms[want].mat == 3 {
+				want = -1 // the chosen key has a refused algorithm
+			}
+			got, err := jwkutil.LoadKey(path, id)
+			if want < 0 {
+				if err == nil {
+					fail("LoadKey(set %v, id %q) returned a key (kid %q), want an error", ms, id, got.KeyID())
+				}
+				continue
+			}
+			if err != nil {
+				fail("LoadKey(set %v, id %q): %v, want key %d", ms, id, err, want)
+				continue
+			}
+			tpGot, _ := got.Thumbprint(crypto.SHA256)
+			tpWant, _ := ks[want].Thumbprint(crypto.SHA256)
+			if string(tpGot) != string(tpWant) {
+				fail("LoadKey(set %v, id %q) returned a different key than member %d", ms, id, want)
+			}
+		}
+	}
+	fmt.Printf("BOUNDED name=c18-keys cases=%d key_set_cases=%d failures=%d\n", cases, setCases, failures)
 }
